@@ -100,11 +100,13 @@ def gen_cases(sh: Shard):
                 half = others[: len(others) // 2]
                 variants.append(([j for j in others if j not in half], half))  # `half` completed first
             for held, after in variants:
-                for ph in C.PHASES:
+                # execute phase only: schedule and transfer steps handle the tags of a step one after the other, so
+                # a sibling cannot be "still running" in the same step, and ExecuteStep is where the engine cancels
+                for ph in ("execute",):
                     for f in (1, 2):
                         hold.append({"prog": sp, "job": f"/b/0.{i}", "phase": ph, "kind": "soft", "f": f, "limit": None,
                                      "manager": "dummy", "hold": held, "after": after, "group": "hold"})
-                    for limit in (1, 2, 3):
+                    for limit in (1, 2, 3, 4):
                         for f in (limit - 1, limit, limit + 1):
                             if f < 1:
                                 continue
